@@ -91,11 +91,19 @@ type sym struct {
 	c      *vol.Content
 }
 
+// second payload of the exhaustive alphabet: a CRC-32C collision twin of the first one (same
+// length, same needle checksum, other bytes) — so "write alpha; write twin" on one id/cookie,
+// the case in which isFileUnchanged must still compare the bytes, is covered exhaustively
+var twinOfAlpha = vol.Twin([]byte("alpha"), []byte{3})
+
 func alphabetA() []sym {
+	if twinOfAlpha == nil {
+		panic("no CRC twin")
+	}
 	var al []sym
 	for id := 1; id <= 2; id++ {
 		for ck := 0; ck < 2; ck++ {
-			al = append(al, sym{"w", id, ck, plain("alpha")}, sym{"w", id, ck, &vol.Content{Data: []byte("beta!"), Flags: 2, Name: []byte("b.txt")}},
+			al = append(al, sym{"w", id, ck, plain("alpha")}, sym{"w", id, ck, &vol.Content{Data: twinOfAlpha, Flags: 2, Name: []byte("b.txt")}},
 				sym{"w", id, ck, plain("")}, sym{"d", id, ck, nil}, sym{"r", id, ck, nil})
 		}
 	}
@@ -194,6 +202,14 @@ var mimes = []string{"", "text/plain", "application/octet-stream", "image/jpeg"}
 func randContent(rng *hx.Rng, prev []*vol.Content, http bool) *vol.Content {
 	c := &vol.Content{}
 	switch {
+	case len(prev) > 0 && rng.Chance(1, 6):
+		// same length, same CRC-32C, different bytes than an earlier payload of this id
+		old := prev[rng.Intn(len(prev))].Data
+		if tw := vol.Twin(old, rng.Bytes(1+rng.Intn(3))); tw != nil {
+			c.Data = tw
+		} else {
+			c.Data = old
+		}
 	case len(prev) > 0 && rng.Chance(2, 5):
 		c.Data = prev[rng.Intn(len(prev))].Data
 	case rng.Chance(1, 5):
